@@ -437,7 +437,7 @@ impl<'a, T> Drop for AtomicArena<'a, T> {
             if a < last_a {
                 break;
             }
-            let mut b_ptr = if let Some(nn) = NonNull::new(bucket.load(Ordering::Relaxed)) {
+            let b_ptr = if let Some(nn) = NonNull::new(bucket.load(Ordering::Relaxed)) {
                 nn
             } else {
                 panic!("Null bucket pointer before length.  Shouldn't happen.")
@@ -448,7 +448,9 @@ impl<'a, T> Drop for AtomicArena<'a, T> {
             let sz = if a == last_a { last_b + 1 } else { cap };
             let iv: Vec<T> = unsafe {
                 // View b_ptr as a *mut T rather than a NonNull<MaybeUninit<T>>.
-                let b_ptr: *mut T = (b_ptr.as_mut()).as_mut_ptr();
+                // Cast the pointer itself: going through `&mut MaybeUninit<T>`
+                // would narrow it to the first element of the bucket.
+                let b_ptr: *mut T = b_ptr.as_ptr().cast::<T>();
                 // We know that the first sz elements at *b_ptr are
                 // initialized, and c elements were allocated.  Build
                 // a well-formed Vec<T> (stripping away MaybeUninit<>)
